@@ -6,6 +6,7 @@ import os
 
 ROOT = os.path.join(os.path.dirname(os.path.dirname(os.path.abspath(__file__))), "seeded")
 rows = []
+counts = {}
 for d in sorted(os.listdir(ROOT)):
     mp = os.path.join(ROOT, d, "meta.json")
     if not os.path.exists(mp):
@@ -18,10 +19,23 @@ for d in sorted(os.listdir(ROOT)):
     tests = ver.get("tests-with-change", "?").split(" in ")[0]
     demo = f"{ver.get('demo.py:unchanged-tree-exit', '?')}/{ver.get('demo.py:changed-tree-exit', '?')}"
     chk = []
-    for k, v in sorted(obs.get("checks", {}).items()):
+    prop = m.get("property")
+    own_key = f"{prop}:quick:seed0"
+    caught = None
+    for k, v in sorted(obs.get("checks", {}).items(),
+                       key=lambda kv: (not kv[0].startswith(prop), kv[0])):
+        # the property's own quick check (seed 0), and the quick checks of
+        # other properties that report the change
+        if not k.endswith(":quick:seed0"):
+            continue
+        if k != own_key and v.get("verdict") != "violated":
+            continue
         keys = ", ".join(v.get("violation_keys", [])[:3])
         chk.append(f"{k}: {v.get('verdict')}" + (f" ({keys})" if keys else ""))
-    rows.append((d, m.get("property"), first[:160], tests, demo, "; ".join(chk)[:400]))
+        if v.get("verdict") == "violated" and caught is None:
+            caught = "own" if k == own_key else "cross"
+    counts[caught] = counts.get(caught, 0) + 1
+    rows.append((d, prop, first[:160], tests, demo, "; ".join(chk)[:400]))
 with open(os.path.join(ROOT, "README.md"), "w") as f:
     f.write("""# Seeded property-breaking changes
 
@@ -32,13 +46,15 @@ change), the agent's description (`note.txt`) and `meta.json` with what
 `tools/seedtest.py` observed: the repository's test suite with the change
 applied, the demonstration on both trees, and verdict + reported keys of the
 check(s) run against a scratch tree with the change (never `/repo` itself).
-`-1/-2` are from the first round, `-3/-4` from the second (several second-round
-changes repeat a first-round mechanism; they were kept as independent
-re-discoveries).
+`-1/-2` are from the first round, `-3/-4` from the second, `-5..-7`, `-8..-10`,
+`-11..-13` and `-14..-16` from rounds three to six (some changes repeat an
+earlier mechanism; they were kept as independent re-discoveries).  The last
+column shows the property's own quick check (seed 0) and, where that one
+holds, the quick check of another property that reports the change.
 
 | id | property | change (first line of the agent's note) | tests with change | demo exit unchanged/changed | checks |
 |----|----------|------------------------------------------|-------------------|------------------------------|--------|
 """)
     for r in rows:
         f.write("| " + " | ".join(str(x).replace("|", "\\|").replace("\n", " ") for x in r) + " |\n")
-print(len(rows), "rows")
+print(len(rows), "rows", counts)
